@@ -151,7 +151,7 @@ def consumer_labels(trace, i, phase):
 def dq_labels(prog, s):
     """The model label sequence of a finished run (C17 programs)."""
     from harness.core import Atom
-    trace = s.trace
+    trace = s.timeline
     ops = {"prod": [o for o in prog["prod"] if o[0] != "sleep"],
            "other": [o for o in prog["other"] if o[0] != "sleep"] + ([["close"]] if prog.get("close_at_end") else [])}
     cur = {"prod": 0, "other": 0}
@@ -380,7 +380,7 @@ def run_buf_program(prog, chooser, max_steps=6000):
 def buf_sched(prog, s):
     """Model schedule (see ocaml/m_grouping.ml) of a finished run."""
     from harness.core import Atom
-    trace = s.trace
+    trace = s.timeline
     out = []
     phase = "ENTER"
     clock = 0
